@@ -405,7 +405,7 @@ def run_spec(spec, R, timeout=20.0):
     # index-integrity probe at the point of observation
     ref_ctx = {}
     probe_stats = {"find_types_calls": 0, "find_types_checked": 0}
-    orig_find_types = XmlContext.find_types
+    orig_find_types = getattr(XmlContext, "find_types", None)
     shared_ctx = env.context
 
     def probed_find_types(self, qname):
@@ -440,7 +440,8 @@ def run_spec(spec, R, timeout=20.0):
             sch.suppress -= 1
         return res
 
-    XmlContext.find_types = probed_find_types
+    if orig_find_types is not None:
+        XmlContext.find_types = probed_find_types
 
     def body(t):
         sch.sems[t].acquire()
@@ -467,7 +468,8 @@ def run_spec(spec, R, timeout=20.0):
     sch.sems[sch.start].release()
     finished = sch.main_sem.acquire(timeout=timeout)
     wall = time.monotonic() - t0
-    XmlContext.find_types = orig_find_types
+    if orig_find_types is not None:
+        XmlContext.find_types = orig_find_types
     hang = None
     if not finished:
         hang = "wall"
